@@ -231,6 +231,18 @@ def write_file(path, columns, row_groups, choices, rng, created_by=b"specwriter 
                         dict_vals.append(v)
                 if ch.get("dict_shuffle"):
                     rng.shuffle(dict_vals)
+                if ch.get("dict_match_first_page") and col.max_def == 0 and col.max_rep == 0 and col.ptype in (1, 2, 4, 5) \
+                        and ch.get("index_runs") == "rle" and ch.get("index_width") == 16 and not ch.get("page_bounds"):
+                    # pad the dictionary with unused entries until the dictionary page is exactly as long (uncompressed) as the
+                    # single v1 data page behind it (a reader that recycles a decompression buffer by size must not mix them up)
+                    L = 1 + len(hybrid([dict_vals.index(v) for v in values_all], 16, "rle", rng))
+                    item = 4 if col.ptype in (1, 4) else 8
+                    if L % item == 0 and L // item >= len(dict_vals):
+                        nxt = max(dict_vals) + 1
+                        while len(dict_vals) < L // item:
+                            dict_vals.append(nxt)
+                            nxt += 1
+                        ch.setdefault("_info", {})["dict_matches_page"] = L
                 body = plain(col.ptype, dict_vals, col.type_length)
                 comp = compress(codec, body)
                 hdr = tenc_struct([(1, ("i32", 2)), (2, ("i32", len(body))), (3, ("i32", len(comp))),
